@@ -138,6 +138,23 @@ def _is_run_of_one_class(tree):
     return False
 
 
+def complement_run(pattern):
+    """For a pattern `[^S]+` (greedy, no group): the class items S; also `\\S+` (S = whitespace).  None otherwise."""
+    items = list(regex_ast(pattern))
+    if len(items) != 1 or items[0][0] != sre.MAX_REPEAT:
+        return None
+    lo, hi, sub = items[0][1]
+    sub = list(sub)
+    if lo != 1 or hi != sre.MAXREPEAT or len(sub) != 1 or sub[0][0] != sre.IN:
+        return None
+    av = list(sub[0][1])
+    if av and av[0][0] == sre.NEGATE:
+        return _class_items(av[1:]) or None
+    if len(av) == 1 and av[0][0] == sre.CATEGORY and str(av[0][1]) in ('CATEGORY_NOT_SPACE', 'CATEGORY_UNI_NOT_SPACE'):
+        return {SPACE}
+    return None
+
+
 def separator_info(pattern):
     tree = regex_ast(pattern)
     chars, capturing = regex_chars(tree)
@@ -1017,6 +1034,15 @@ class Flow:
             if not isinstance(subject, Text):
                 return Unk('re.split on ' + repr(subject)[:40])
             return Toks(subject, separator_info(rx.pattern), False, node)
+        if meth == 'findall':
+            subject = args[0] if args else kw.get('string')
+            if len(args) > 1 or set(kw) - {'string'} or rx.flags or not isinstance(subject, Text):
+                return Unk('re.findall with flags / positions / on ' + repr(subject)[:40])
+            sep = complement_run(rx.pattern)
+            if sep is None:
+                return Unk('re.findall({!r}) is not `maximal runs of everything but a set of separators`'.format(rx.pattern))
+            # the maximal runs of non-separators: what splitting at runs of the separators leaves, minus the empty strings
+            return Toks(subject, SepInfo(sep, False, 1, True, 'findall ' + repr(rx.pattern), implicit_strip=False), True, node)
         if meth in ('match', 'search', 'fullmatch'):
             subject = args[0] if args else kw.get('string')
             return Match(rx, subject, meth)
@@ -1850,12 +1876,13 @@ def decide_literal_line(rep, keyword, m, ret):
     items = list(regex_ast(m.rx.pattern))
     if m.rx.flags:
         raise AnalysisError('lex_tokens: the pattern of the `{}` line kind is compiled with flags'.format(keyword))
+    if m.how not in ('match', 'fullmatch', 'search'):
+        raise AnalysisError('lex_tokens: {} on the line text is outside the rules'.format(m.how))
+    anywhere = False
     if items and items[0][0] == sre.AT and items[0][1] in (sre.AT_BEGINNING, sre.AT_BEGINNING_STRING):
         items = items[1:]
     elif m.how == 'search':
-        raise AnalysisError('lex_tokens: the `{}` line kind is searched for anywhere in the line: outside the rules'.format(keyword))
-    if m.how not in ('match', 'fullmatch', 'search'):
-        raise AnalysisError('lex_tokens: {} on the line text is outside the rules'.format(m.how))
+        anywhere = True          # judged below, once the pattern is known to stand for this keyword
     rest = _skip_optional_space(items)
     leading_ws = len(rest) < len(items) and items[0][1][1] == sre.MAXREPEAT
     if not leading_ws:
@@ -1868,6 +1895,15 @@ def decide_literal_line(rep, keyword, m, ret):
             break
     if word != keyword:
         raise AnalysisError('lex_tokens: lines matching {!r} are lexed as `{}` lines: which line kind the pattern stands for is not decided here'.format(m.rx.pattern, keyword))
+    # the recognition runs on the line text with its comment still in place (only strips were admitted above): a pattern that is
+    # searched for anywhere in the line also fires inside a trailing or whole-line comment
+    rep.check(not anywhere, 'R13.4.comments', 'the `{}` line kind is recognised at the start of the line only (blanks aside)'.format(keyword),
+              lambda: Finding('R13.4.comments', 'lex_tokens', ret,
+                              'the `{}` line kind is recognised by searching {!r} anywhere in the line text, before comments are removed: an instruction line '
+                              'with the comment `# {} ...` is lexed as a {} directive, so adding a comment changes the program'.format(keyword, m.rx.pattern, keyword, keyword),
+                              line=getattr(ret, 'lineno', None)))
+    if anywhere:
+        return
     stripped = any(o.args[0] in ('left', 'both') for o in text.ops)
     rep.check(leading_ws or stripped, 'R13.5.indent', 'an indented `{}` line is still lexed as a {} literal'.format(keyword, keyword),
               lambda: Finding('R13.5.indent', 'lex_tokens', ret,
@@ -2205,3 +2241,200 @@ def check_register_numbers(rep, facts):
             msg = 'numeric register spellings are converted with int(., {}) instead of int(., 0): `0x1f` / `0b101` are no longer register numbers'.format(key.base)
         rep.check(ok, 'R13.1.registers', 'numeric register spellings in any base go through int(., 0)',
                   lambda: Finding('R13.1.registers', 'lookup_register', node, msg, line=node.lineno), nontrivial=False)
+
+
+# ================================================================================================================
+# R13.1: an operand position that takes register spellings treats every documented spelling alike
+# ================================================================================================================
+def int_predicates(facts):
+    """Module-level functions that answer `is this text a number` (the try / int(text, 0) form, or the helper judged by R13.7)."""
+    flow = Flow(facts)
+    out = {name for name in facts.funcs if flow.is_int_predicate(name)}
+    if 'is_int' in facts.funcs:
+        out.add('is_int')
+    return out
+
+
+def numeric_branch(test, preds):
+    """(operand name, True if the body / False if the else-side is the side reached only by numeric spellings); None when the
+    test holds no numeric-literal test of a plain name; ('?', None) when it holds one in a position whose meaning is not followed."""
+    def call_of(n):
+        if isinstance(n, ast.Call) and isinstance(n.func, ast.Name) and n.func.id in preds and len(n.args) == 1 and not n.keywords and isinstance(n.args[0], ast.Name):
+            return n.args[0].id
+        return None
+    if call_of(test):
+        return call_of(test), True
+    if isinstance(test, ast.UnaryOp) and isinstance(test.op, ast.Not):
+        r = numeric_branch(test.operand, preds)
+        if r is None or r[1] is None:
+            return r
+        # not (A and is_int(x)): the body is not `numeric only`, and the else-side is; not is_int(x): likewise
+        return r[0], (not r[1])
+    if isinstance(test, ast.BoolOp):
+        hits = [numeric_branch(v, preds) for v in test.values]
+        hits = [h for h in hits if h is not None]
+        if not hits:
+            return None
+        if len(hits) == 1 and hits[0][1] is not None:
+            name, side = hits[0]
+            if isinstance(test.op, ast.And) and side is True:
+                return name, True            # body only with a numeric spelling
+            if isinstance(test.op, ast.Or) and side is False:
+                return name, False           # else-side only with a numeric spelling
+        return '?', None
+    if any(call_of(n) for n in ast.walk(test)):
+        return '?', None
+    return None
+
+
+def item_constructions(stmts, facts):
+    """Constructor calls of item classes in the statements (nested blocks included, nested functions not)."""
+    out = []
+    todo = list(stmts)
+    while todo:
+        n = todo.pop()
+        if isinstance(n, (ast.FunctionDef, ast.AsyncFunctionDef, ast.ClassDef, ast.Lambda)):
+            continue
+        if isinstance(n, ast.Call) and isinstance(n.func, ast.Name) and n.func.id in facts.classes and facts.is_subclass(n.func.id, 'Item'):
+            out.append(n)
+        todo.extend(ast.iter_child_nodes(n))
+    return out
+
+
+def params_receiving(call, name, facts):
+    """Constructor parameters of `call` that receive the plain name `name`."""
+    params = [p for p, _ in facts.init_params(call.func.id)]
+    out = []
+    for i, a in enumerate(call.args):
+        if isinstance(a, ast.Starred):
+            return None
+        if isinstance(a, ast.Name) and a.id == name and i < len(params):
+            out.append(params[i])
+    for k in call.keywords:
+        if k.arg is None:
+            return None
+        if isinstance(k.value, ast.Name) and k.value.id == name:
+            out.append(k.arg)
+    return out
+
+
+def register_parameter(facts, cls, param, mnemonics):
+    """Does the constructor parameter end up in an encoder parameter that is looked up in the register table?  True / False;
+    AnalysisError when the encoders of the mnemonics disagree or the route cannot be followed."""
+    attr = next((a for a, src in facts.full_attr_order(cls) if src == param), None)
+    args_attrs = facts.args_attrs(cls)
+    if attr is None or not args_attrs or attr not in args_attrs:
+        return False
+    k = args_attrs.index(attr)
+    verdicts = set()
+    for m in mnemonics:
+        part = facts.binding(m)
+        fdef = facts.funcs.get(part.func)
+        if fdef is None:
+            raise AnalysisError('encoder {} of {} not found'.format(part.func, m))
+        open_params = [a.arg for a in fdef.args.args if a.arg not in part.kwargs]
+        if k >= len(open_params):
+            raise AnalysisError('{}: args() of {} and the parameters of {} do not line up'.format(m, cls, part.func))
+        q = open_params[k]
+        verdicts.add(any(isinstance(n, ast.Call) and dotted(n.func) == 'lookup_register' and n.args and isinstance(n.args[0], ast.Name) and n.args[0].id == q
+                         for n in ast.walk(fdef)))
+    if len(verdicts) != 1:
+        raise AnalysisError('parameter {} of {} is a register for some mnemonics only'.format(param, cls))
+    return verdicts.pop()
+
+
+def enclosing_mnemonics(node, facts):
+    """Mnemonics of the parser arm the node sits in: the nearest enclosing `if <head> in <mnemonic table>` whose body holds it."""
+    tables = facts.instruction_tables()
+    child = node
+    cur = getattr(node, '_parent', None)
+    while cur is not None and not isinstance(cur, (ast.FunctionDef, ast.AsyncFunctionDef)):
+        if isinstance(cur, ast.If) and child in cur.body:
+            for n in ast.walk(cur.test):
+                if isinstance(n, ast.Compare) and len(n.ops) == 1 and isinstance(n.ops[0], ast.In) and isinstance(n.comparators[0], ast.Name) and n.comparators[0].id in tables:
+                    return list(tables[n.comparators[0].id])
+        child, cur = cur, getattr(cur, '_parent', None)
+    return None
+
+
+def statements_after(node):
+    """The statements that run after `node` in its own block."""
+    par = getattr(node, '_parent', None)
+    for field in ('body', 'orelse', 'finalbody'):
+        blk = getattr(par, field, None)
+        if isinstance(blk, list) and node in blk:
+            return blk[blk.index(node) + 1:]
+    return []
+
+
+def check_operand_spelling(rep, facts):
+    """A number is a documented spelling of a register (`12` is x12).  Where the parser tests an operand with the numeric-literal
+    helper and the operand is, on the other side of the test, a register operand, the numeric side must not turn the line into
+    something else: `add a0, a1, 12` and `add a0, a1, x12` are the same instruction."""
+    if 'parse_item' not in facts.funcs:
+        raise AnalysisError('anchor vanished: parse_item')
+    preds = int_predicates(facts)
+    if not preds:
+        return
+    scope = [f for f in reachable_functions(facts, 'parse_item') if f not in preds and f not in ('lex_tokens', 'read_lines')]
+    for fname in sorted(scope):
+        fn = facts.funcs[fname]
+        for node in ast.walk(fn):
+            if not isinstance(node, ast.If):
+                continue
+            hit = numeric_branch(node.test, preds)
+            if hit is None:
+                continue
+            rep.count('numeric tests on operands analysed')
+            name, body_is_numeric = hit
+            after = statements_after(node)
+            if body_is_numeric is None:
+                # which side is the numeric one is not followed: only harmless when no tested name is a register operand anywhere near
+                names = {n.args[0].id for n in ast.walk(node.test) if isinstance(n, ast.Call) and isinstance(n.func, ast.Name) and n.func.id in preds
+                         and n.args and isinstance(n.args[0], ast.Name)}
+                for c in item_constructions(node.body + node.orelse + after, facts):
+                    for x in names:
+                        got = params_receiving(c, x, facts)
+                        if got is None or got:
+                            raise AnalysisError('{}: `{}` combines a numeric-literal test with other conditions in a way the rules do not follow, and `{}` is '
+                                                'handed to {}'.format(fname, unparse(node.test)[:80], x, c.func.id))
+                continue
+            numeric_side = node.body if body_is_numeric else node.orelse + after
+            other_side = (node.orelse + after) if body_is_numeric else node.body
+            # is the operand a register operand for the spellings that are not numbers?
+            reg_uses = []
+            for c in item_constructions(other_side, facts):
+                got = params_receiving(c, name, facts)
+                if got is None:
+                    raise AnalysisError('{}: {} is built from star-arguments next to a numeric-literal test of `{}`'.format(fname, c.func.id, name))
+                for p in got:
+                    mns = enclosing_mnemonics(node, facts)
+                    if mns is None:
+                        raise AnalysisError('{}: cannot tell which mnemonics `{}` stands for where `{}` is tested as a number and handed to {}.{}'.format(
+                            fname, unparse(node.test)[:60], name, c.func.id, p))
+                    if register_parameter(facts, c.func.id, p, mns):
+                        reg_uses.append((c, p))
+            if not reg_uses:
+                rep.ok('R13.1.operand-spelling', '{}: `{}` is no register operand (line {})'.format(fname, name, node.lineno), nontrivial=False)
+                continue
+            c0, p0 = reg_uses[0]
+            # the operand is a register: what happens to its numeric spellings?
+            if any(name in assigned_names([st]) for st in numeric_side):
+                raise AnalysisError('{}: the register operand `{}` is rewritten where it is spelled as a number: not decided'.format(fname, name))
+            builds = item_constructions(numeric_side, facts)
+            exits = [n for st in numeric_side for n in ast.walk(st) if isinstance(n, (ast.Return, ast.Raise))]
+            same = [c for c in builds if params_receiving(c, name, facts) and c.func.id == c0.func.id and p0 in params_receiving(c, name, facts)]
+            if body_is_numeric and not exits and not builds:
+                rep.ok('R13.1.operand-spelling', '{}: numeric spellings of register operand `{}` continue to the same construction'.format(fname, name))
+                continue
+            if same and len(same) == len(builds):
+                raise AnalysisError('{}: numeric spellings of the register operand `{}` are built by a separate {} construction: equality with the other '
+                                    'side is not decided'.format(fname, name, c0.func.id))
+            if not exits:
+                raise AnalysisError('{}: what happens to numeric spellings of the register operand `{}` is not understood'.format(fname, name))
+            what = ('builds {}'.format(', '.join(sorted({c.func.id for c in builds}))) if builds else 'refuses the line')
+            rep.fail(Finding('R13.1.operand-spelling', fname, node,
+                             '`{}` is a register operand ({}.{} is looked up in the register table), and a bare number is a documented spelling of a register; '
+                             'where it is spelled as a number (`{}`) the parser {} instead: `... 12` and `... x12` name the same register and assemble '
+                             'differently'.format(name, c0.func.id, p0, unparse(node.test)[:80], what), line=node.lineno),
+                     instance='{} {}'.format(fname, name))
